@@ -163,19 +163,19 @@ def concretize(v):
     """python value if the term is a literal, else the (simplified) symbolic value"""
     if isinstance(v, SInt):
         t = simp(v.t)
-        return t.as_long() if z3.is_int_value(t) else SInt(t)
+        return t.as_long() if z3.is_int_value(t) else v      # structure of non-literals is preserved (canon)
     if isinstance(v, SBool):
         t = simp(v.t)
         if z3.is_true(t):
             return True
         if z3.is_false(t):
             return False
-        return SBool(t)
+        return v
     if isinstance(v, SStr):
         cs = [c if z3.is_int_value(c) else simp(c) for c in v.chars]
         if all(z3.is_int_value(c) for c in cs):
             return "".join(chr(c.as_long()) for c in cs)
-        return SStr(cs)
+        return SStr([c if z3.is_int_value(c) else o for c, o in zip(cs, v.chars)])
     return v
 
 
